@@ -43,7 +43,8 @@ try:
         res = {}
         for c in checks:
             t0 = time.time()
-            cr = subprocess.run(["/verif/check", c, "--tier", "quick"], cwd="/verif",
+            home = os.environ.get("JSVERIF_CHECK_HOME", "/verif")   # a snapshot of /verif may be used
+            cr = subprocess.run([home + "/check", c, "--tier", "quick"], cwd=home,
                                 capture_output=True, text=True,
                                 env=dict(os.environ, JSVERIF_REPO=str(repo), PYTHONPATH=str(repo),
                                          JSVERIF_EVIDENCE_DIR=str(scratch / "evidence"),
